@@ -12,6 +12,26 @@ use crate::strategy::{CompletionReason, ProtocolStrategyResponse, Round, Strateg
 
 include!(concat!(env!("TRIPPY_VERIF_HARNESS"), "/common.rs"));
 
+/// Native replay support: concrete playback ignores `#[kani::stub]`, so when a counterexample of a
+/// clock-dependent harness is replayed as an ordinary test the armed clock readings are served by
+/// interposing libc's `clock_gettime` (CLOCK_REALTIME = the harness clock, in the same order the
+/// stub serves them; any other clock id = a slowly increasing fake).  Unreachable under
+/// verification for harnesses that stub `SystemTime::now`.
+#[no_mangle]
+pub unsafe extern "C" fn clock_gettime(clk_id: i32, tp: *mut i64) -> i32 {
+    static mut MONO: i64 = 1_000;
+    if clk_id == 0 {
+        let (s, n) = clock::next_raw();
+        *tp = s as i64;
+        *tp.add(1) = i64::from(n);
+    } else {
+        MONO += 1;
+        *tp = MONO;
+        *tp.add(1) = 0;
+    }
+    0
+}
+
 const NOTSENT: ProbeStatus = ProbeStatus::NotSent;
 const BUF: u16 = 512;
 
@@ -1320,7 +1340,7 @@ fn identity_roundtrip(which: u8, v6: bool) {
     }
     kani::cover!(which != 1 || paris, "paris");
     kani::cover!(which != 1 || dublin, "dublin");
-    kani::cover!(seq.0 == 65533 || (dublin && v6 && which == 1), "largest sequence");
+    kani::cover!(which != 2 || seq.0 == 65533, "largest sequence (TCP re-issues can use the whole window)");
     std::mem::forget(st);
 }
 
